@@ -9,6 +9,8 @@ props=[json.loads(l) for l in open(os.path.join(root,'properties.jsonl'))]
 checks=[];na=[]
 for p in props:
     pid=p['id']; e=src['properties'].get(pid,{})
+    frag=os.path.join(root,'props',pid.lower(),'manifest.json')
+    if os.path.exists(frag): e=json.load(open(frag))
     if e.get('claimed'):
         checks.append({
             "property_id":pid,
